@@ -17,6 +17,8 @@ import CifModel.Model.LadderMap
     ladder mapdel <T|P> <n> <key>*n <key> <keep 0|1> <k>   cif_value_remove_item_by_key / cif_packet_remove_item
     ladder tclone T <n> <key>*n <shape…> <k>  cif_value_clone of a table whose n entries all have a value of <shape>
                                             <key> = <orig-hex>[:<norm-hex>]; answers carry ` items=<n>` (entries afterwards)
+    ladder deser { <key-hex> <shape> … } <k>  cif_value_deserialize of the blob of a table value (entry values without tables)
+    ladder namesnorm <n> <k>                cif_loop_get_names_internal(normalize = 1) on a stored loop with n item names
     ladder names <n> <k>                    cif_loop_get_names on a stored loop with n item names (the code as it is:
                                             getNamesPinned)
   shape tokens: S (unknown/na) | C (char) | M0 | M1 (number without / with su) | [ shape* ]
@@ -56,7 +58,7 @@ mutual
   def toD : Shape → Option DShape
     | .scalar => some .scalar
     | .chr => some .chr
-    | .numb _ => none
+    | .numb b => some (.numb b)
     | .lst es => (toDs es).map .lst
   def toDs : List Shape → Option (List DShape)
     | [] => some []
@@ -153,6 +155,18 @@ def handleMap (fixed : Bool) (op : String) (kindT : String) (nT : String) (rest 
     | _ => none
   | _ => none
 
+/-- `<key-hex> <shape> … }` -/
+def parseBlobEntries : Nat → List String → Option (List BlobEntry × List String)
+  | 0, _ => none
+  | _ + 1, [] => none
+  | fuel + 1, t :: rest =>
+    if t == "}" then some ([], rest) else do
+      let k ← unhex t
+      let (sh, r) ← parseShape (rest.length + 1) rest
+      let d ← toD sh
+      let (es, r') ← parseBlobEntries fuel r
+      pure ({ keyStr := k, shape := d } :: es, r')
+
 def handle : Handler
   | ["dup", n, k] => do
       let n ← n.toNat?; let k ← k.toNat?
@@ -204,15 +218,27 @@ def handle : Handler
             let (rc, _, st) := copyChar (if k = 0 then 0 else s0.count + k) old s0
             pure (summaryW rc s0.count (st.evs.drop s0.evs.length))
       | _ => none
-  | "deser" :: rest => do                       -- top level must be a list; no numbers
+  | "deser" :: "{" :: rest => do                -- the blob of a table: { <key-hex> <shape> … } <k>
+      let (es, r) ← parseBlobEntries (rest.length + 1) rest
+      match r with
+      | [k] => do
+          let k ← k.toNat?
+          let (rc, _, st) := deserTable k es
+          pure (summary rc st.evs ++ s!" code={rc}")
+      | _ => none
+  | "deser" :: rest => do                       -- the blob of a list
       let (sh, r) ← parseShape (rest.length + 1) rest
       match sh, r with
       | .lst es, [k] => do
           let k ← k.toNat?
           let ds ← toDs es
           let (rc, _, st) := deserialize k ds
-          pure (summary rc st.evs)
+          pure (summary rc st.evs ++ s!" code={rc}")
       | _, _ => none
+  | ["namesnorm", n, k] => do                  -- cif_loop_get_names_internal with normalisation
+      let n ← n.toNat?; let k ← k.toNat?
+      let (rc, _, st) := getNamesNorm k n
+      pure (summary rc st.evs)
   | "mapset" :: kind :: n :: rest => handleMap true "mapset" kind n rest        -- the code as repaired by /repo commit 7285a53
   | "mapsetpinned" :: kind :: n :: rest => handleMap false "mapset" kind n rest -- the pinned behaviour (C17_cex_map_set_corrupt)
   | "mapsetfixed" :: kind :: n :: rest => handleMap true "mapset" kind n rest
